@@ -1,16 +1,25 @@
 // C19: what `-E` prints re-lexes to the token sequence that was printed.
-// For every pair of spellings A, B (each 1..2 symbolic ASCII bytes) that the REAL tokenize() lexes
-// as single tokens: hand the two-token list [A, B] to the REAL print_tokens() of main.c with the
-// flags the preprocessor gives B when nothing separated it from A in the expansion result
-// (B.at_bol = false, B.has_space = false; reachable for ANY such pair, e.g. `#define F(x) x` /
-// `F(A)F(B)`, or `#define N -1` / `-N`), capture the text it writes, run the real tokenize() on
-// that text and require exactly [A, B] back (same kinds, same spellings).
-// "Adjacent" is therefore whatever print_tokens itself decides: a printer that separates
-// dangerous pairs passes, the pinned one (space iff has_space) does not.
+// For every pair of spellings A, B (each 1..2 symbolic ASCII bytes, no quotes) that lex as single
+// tokens: hand the two-token list [A, B] to the REAL print_tokens() of main.c with the flags the
+// preprocessor gives B when nothing separated it from A in an expansion result (B.at_bol = false,
+// B.has_space = false; reachable for ANY such pair, e.g. `#define F(x) x` / `F(A)F(B)`, or
+// `#define N -1` / `-N`), capture the text it writes, lex that text and require exactly [A, B]
+// back (same kinds, same spellings).  "Adjacent" is therefore whatever print_tokens itself
+// decides: a printer that separates dangerous pairs passes, the pinned one (space iff has_space)
+// does not.
+//
+// LEXING under cbmc: the real tokenize() cannot be executed symbolically by cbmc 6.11 (its
+// simplifier does not terminate in minutes on the pointer merges of the main loop even for a
+// 1-byte buffer; tried: no checks, --no-simplify, --paths, own string functions).  So the lexer
+// used under cbmc is model_lex() below: tokenize()'s dispatch order written out for the quote-free
+// ASCII alphabet, calling the REAL scanners read_punct() and read_ident() (exported from the real
+// tokenize.c by lexk.c; unicode.c linked real).  model_lex is validated NATIVELY against the real
+// tokenize() on every buffer of <= 3 bytes and on longer buffers over reduced alphabets at every
+// run (props/c19.py, oracle validation), and every cbmc counterexample is re-checked natively with
+// the real tokenize() before it is reported (below, #ifdef NATIVE).
 //
 // One harness function per (kind of A, kind of B) so that findings are keyed by class.
-// Other translation units (tokenize.c, unicode.c, type.c, ...) are linked REAL (extra_src).
-// Stub (cbmc only): open_file -> a dummy FILE (natively the real one returns stdout).
+// Stub (cbmc only): open_file -> stdout (natively the real one returns stdout).
 #include "common.h"
 #include "assert_hook.h"
 
@@ -61,71 +70,180 @@ FILE *stub_open_file(char *path) { return stdout; }
 struct IN_t { unsigned char a[2], b[2]; unsigned char la, lb; } IN;
 struct IN_t nondet_IN(void);
 
-static char SRC[8];
+int vk_read_punct(char *p);
+int vk_read_ident(char *p);
 
-#ifndef WITH_QUOTES
-#define QUOTE_OK(c) ((c) != '"' && (c) != '\'')
-#else
-#define QUOTE_OK(c) 1
-#endif
+// ---- tokenize()'s dispatch for buffers without quote characters -------------------------------
+typedef struct { int kind; int off, len; bool at_bol, has_space; } MTok;
+#define MAXTOK 8
+// returns number of tokens, or -1 if the tokenizer would report an error (or a quote is met)
+static int model_lex(char *s, MTok *out) {
+  int n = 0, i = 0;
+  bool bol = true, sp = false;
+  for (int guard = 0; guard < 10; guard++) {
+    if (!s[i]) return n;
+    if (s[i] == '"' || s[i] == '\'') return -1;                    // outside the modelled alphabet
+    if (s[i] == '/' && s[i + 1] == '/') {                          // line comment
+      i += 2;
+      for (int k = 0; k < 10 && s[i] != '\n'; k++) { if (!s[i]) return -1; i++; }
+      sp = true;
+      continue;
+    }
+    if (s[i] == '/' && s[i + 1] == '*') {                          // block comment
+      int q = -1;
+      for (int k = i + 2; k < 10 && s[k]; k++) if (q < 0 && s[k] == '*' && s[k + 1] == '/') q = k;
+      if (q < 0) return -1;
+      i = q + 2; sp = true;
+      continue;
+    }
+    if (s[i] == '\n') { i++; bol = true; sp = false; continue; }
+    if (isspace((unsigned char)s[i])) { i++; sp = true; continue; }
+    int len = 0, kind = 0;
+    if (isdigit((unsigned char)s[i]) || (s[i] == '.' && isdigit((unsigned char)s[i + 1]))) {   // pp-number
+      int j = i + 1;
+      for (int k = 0; k < 10; k++) {
+        if (s[j] && s[j + 1] && (s[j] == 'e' || s[j] == 'E' || s[j] == 'p' || s[j] == 'P') && (s[j + 1] == '+' || s[j + 1] == '-')) j += 2;
+        else if (isalnum((unsigned char)s[j]) || s[j] == '.') j++;
+        else break;
+      }
+      len = j - i; kind = TK_PP_NUM;
+    } else if ((len = vk_read_ident(s + i)) > 0) kind = TK_IDENT;
+    else if ((len = vk_read_punct(s + i)) > 0) kind = TK_PUNCT;
+    else return -1;                                                 // "invalid token"
+    if (n >= MAXTOK) return -1;
+    out[n].kind = kind; out[n].off = i; out[n].len = len; out[n].at_bol = bol; out[n].has_space = sp;
+    n++;
+    i += len; bol = sp = false;
+  }
+  return -1;
+}
+
+static char SRC[8];
 
 static void pair(int ka, int kb) {
   HAVOC_IN();
   __CPROVER_assume(IN.la >= 1 && IN.la <= 2 && IN.lb >= 1 && IN.lb <= 2);
   for (int i = 0; i < 2; i++) {
     __CPROVER_assume(IN.a[i] >= 1 && IN.a[i] < 128 && IN.b[i] >= 1 && IN.b[i] < 128);
-    __CPROVER_assume(QUOTE_OK(IN.a[i]) && QUOTE_OK(IN.b[i]));
+    __CPROVER_assume(IN.a[i] != '"' && IN.a[i] != '\'' && IN.b[i] != '"' && IN.b[i] != '\'');
   }
-  // "A B\n": the real tokenizer must see exactly the two tokens A and B (each spelling is one token)
+  // "A B\n" must lex as exactly the two tokens A and B (each spelling is ONE token)
   int n = 0;
   SRC[n++] = IN.a[0]; if (IN.la == 2) SRC[n++] = IN.a[1];
   SRC[n++] = ' ';
   int offB = n;
   SRC[n++] = IN.b[0]; if (IN.lb == 2) SRC[n++] = IN.b[1];
   SRC[n++] = '\n'; SRC[n] = 0;
+  MTok t[MAXTOK];
+  int nt = model_lex(SRC, t);
+  __CPROVER_assume(nt == 2 && t[0].kind == ka && t[0].off == 0 && t[0].len == IN.la &&
+                   t[1].kind == kb && t[1].off == offB && t[1].len == IN.lb);
 
-  Token *A = tokenize(new_file("a.c", 1, SRC));
-  __CPROVER_assume(A->kind == ka && A->len == IN.la && A->loc == SRC);
-  Token *B = A->next;
-  __CPROVER_assume(B->kind == kb && B->len == IN.lb && B->loc == SRC + offB);
-  __CPROVER_assume(B->next->kind == TK_EOF);
-
-  // the flags the preprocessor gives B when it directly follows A in an expansion result
-  A->at_bol = true; A->has_space = false;
-  B->at_bol = false; B->has_space = false;
+  // the list the preprocessor hands to print_tokens when B directly follows A in an expansion
+  static Token A, B, E;
+  A.kind = ka; A.loc = SRC; A.len = IN.la; A.at_bol = true; A.has_space = false; A.next = &B;
+  B.kind = kb; B.loc = SRC + offB; B.len = IN.lb; B.at_bol = false; B.has_space = false; B.next = &E;
+  E.kind = TK_EOF; E.loc = SRC + n; E.len = 0; E.at_bol = true; E.next = NULL;
 
   OUTN = 0;
-  print_tokens(A);
+  print_tokens(&A);
   OUT[OUTN] = 0;
   VASSERT(!OUT_overflow, "harness: captured output fits");
 
-  Token *r = tokenize(new_file("out.i", 1, OUT));
-  VASSERT(r->kind == ka && r->len == IN.la, "first re-lexed token has the kind and length of A");
+#ifdef NATIVE
+  {  // confirm with the REAL tokenize(): must return exactly [A, B]
+    Token *vk_tokenize_or_null(char *buf);
+    static char copy[sizeof OUT];
+    memcpy(copy, OUT, sizeof OUT);
+    Token *r = vk_tokenize_or_null(copy);
+    bool same = r && r->kind == ka && r->len == IN.la && !memcmp(r->loc, SRC, IN.la) && r->next &&
+                r->next->kind == kb && r->next->len == IN.lb && !memcmp(r->next->loc, SRC + offB, IN.lb) &&
+                r->next->next && r->next->next->kind == TK_EOF;
+    printf("print_tokens wrote \"%.*s\"; real tokenize() gives back [A,B]: %s\n", OUTN - 1, OUT, same ? "yes" : "NO");
+    VASSERT(same, "REAL tokenize() of the printed text yields exactly [A, B]");
+  }
+#endif
+  MTok r[MAXTOK];
+  int nr = model_lex(OUT, r);
+  VASSERT(nr >= 1 && r[0].kind == ka && r[0].len == IN.la, "first re-lexed token has the kind and length of A");
   for (int i = 0; i < 2; i++)
-    if (i < IN.la && i < r->len) VASSERT(r->loc[i] == IN.a[i], "first re-lexed token is spelled like A");
-  __CPROVER_assume(r->kind != TK_EOF);
-  Token *s = r->next;
-  VASSERT(s->kind == kb && s->len == IN.lb, "second re-lexed token has the kind and length of B");
+    if (nr >= 1 && i < IN.la) VASSERT(OUT[r[0].off + i] == IN.a[i], "first re-lexed token is spelled like A");
+  VASSERT(nr >= 2 && r[1].kind == kb && r[1].len == IN.lb, "second re-lexed token has the kind and length of B");
   for (int i = 0; i < 2; i++)
-    if (i < IN.lb && i < s->len) VASSERT(s->loc[i] == IN.b[i], "second re-lexed token is spelled like B");
-  __CPROVER_assume(s->kind != TK_EOF);
-  VASSERT(s->next->kind == TK_EOF, "exactly two tokens are re-lexed");
+    if (nr >= 2 && i < IN.lb) VASSERT(OUT[r[1].off + i] == IN.b[i], "second re-lexed token is spelled like B");
+  VASSERT(nr == 2, "exactly two tokens are re-lexed");
   VCOVER();
 }
 
 #define PAIR(na, ka, nb, kb) void h_##na##_##nb(void) { pair(ka, kb); }
-PAIR(ident, TK_IDENT, ident, TK_IDENT) PAIR(ident, TK_IDENT, num, TK_PP_NUM) PAIR(ident, TK_IDENT, punct, TK_PUNCT) PAIR(ident, TK_IDENT, str, TK_STR)
-PAIR(num, TK_PP_NUM, ident, TK_IDENT) PAIR(num, TK_PP_NUM, num, TK_PP_NUM) PAIR(num, TK_PP_NUM, punct, TK_PUNCT) PAIR(num, TK_PP_NUM, str, TK_STR)
-PAIR(punct, TK_PUNCT, ident, TK_IDENT) PAIR(punct, TK_PUNCT, num, TK_PP_NUM) PAIR(punct, TK_PUNCT, punct, TK_PUNCT) PAIR(punct, TK_PUNCT, str, TK_STR)
-PAIR(str, TK_STR, ident, TK_IDENT) PAIR(str, TK_STR, num, TK_PP_NUM) PAIR(str, TK_STR, punct, TK_PUNCT) PAIR(str, TK_STR, str, TK_STR)
+PAIR(ident, TK_IDENT, ident, TK_IDENT) PAIR(ident, TK_IDENT, num, TK_PP_NUM) PAIR(ident, TK_IDENT, punct, TK_PUNCT)
+PAIR(num, TK_PP_NUM, ident, TK_IDENT) PAIR(num, TK_PP_NUM, num, TK_PP_NUM) PAIR(num, TK_PP_NUM, punct, TK_PUNCT)
+PAIR(punct, TK_PUNCT, ident, TK_IDENT) PAIR(punct, TK_PUNCT, num, TK_PP_NUM) PAIR(punct, TK_PUNCT, punct, TK_PUNCT)
 
-// diagnostic path of the tokenizer (cbmc only: --replace-calls error_at:stub_error_at etc.): the real
-// error_at scans the line, measures display width, prints and exits; here it just ends the path
-// (a spelling the tokenizer rejects is not a token, so such inputs are outside the quantifier).
+#ifdef NATIVE
+// ---- oracle validation: model_lex == real tokenize() -----------------------------------------
+Token *vk_tokenize_or_null(char *buf);
+void vk_arena_reset(void);
+static long validate_one(char *buf) {
+  static char copy[16];
+  strcpy(copy, buf);
+  MTok m[MAXTOK];
+  int nm = model_lex(buf, m);
+  vk_arena_reset();
+  Token *r = vk_tokenize_or_null(copy);
+  if (!r) { if (nm != -1) { printf("ORACLE-MISMATCH: real tokenize rejects, model accepts: "); goto bad; } return 1; }
+  if (nm == -1) { printf("ORACLE-MISMATCH: model rejects, real tokenize accepts: "); goto bad; }
+  int k = 0;
+  for (Token *t = r; t->kind != TK_EOF; t = t->next, k++) {
+    if (k >= nm || m[k].kind != (int)t->kind || m[k].off != t->loc - copy || m[k].len != t->len ||
+        m[k].at_bol != t->at_bol || m[k].has_space != t->has_space) { printf("ORACLE-MISMATCH at token %d: ", k); goto bad; }
+  }
+  if (k != nm) { printf("ORACLE-MISMATCH: token count %d vs %d: ", k, nm); goto bad; }
+  return 1;
+bad:
+  for (char *p = buf; *p; p++) printf("%02x ", (unsigned char)*p);
+  printf("\n");
+  _Exit(1);
+}
+static long validate_rec(char *buf, int pos, int len, const char *alpha, int nalpha) {
+  if (pos == len) { buf[pos] = '\n'; buf[pos + 1] = 0; return validate_one(buf); }
+  long c = 0;
+  for (int i = 0; i < nalpha; i++) { buf[pos] = alpha[i]; c += validate_rec(buf, pos + 1, len, alpha, nalpha); }
+  return c;
+}
+void validate_oracle(void) {
+  char full[128]; int nf = 0;
+  for (int c = 1; c < 128; c++) if (c != '"' && c != '\'') full[nf++] = (char)c;
+  static const char mid[] = "/*.+-<>=&|#%^!:eEpPxX019a_ \n\t(";
+  static const char small[] = "/*.+-<=&#eP1a \n";
+  char buf[16];
+  long n = 0;
+  for (int len = 0; len <= 3; len++) n += validate_rec(buf, 0, len, full, nf);
+  n += validate_rec(buf, 0, 4, mid, (int)strlen(mid));
+  n += validate_rec(buf, 0, 5, small, (int)strlen(small));
+  n += validate_rec(buf, 0, 6, small, 10);
+  printf("ORACLE-OK %ld buffers: model_lex agrees with the real tokenize()\n", n);
+}
+#endif
+
+// diagnostic path of the scanners (cbmc only: --replace-calls error_at:stub_error_at): the real
+// error_at scans the line, measures display width, prints and exits; here it just ends the path.
 noreturn void stub_error_at(char *loc, char *fmt, ...) { verif_exit(1); }
-noreturn void stub_error_tok(Token *tok, char *fmt, ...) { verif_exit(1); }
 
-// string / character literal readers: with quotes excluded from the alphabet they are unreachable;
-// the stubs ASSERT that (cbmc only), which removes their bodies from the symbolic execution.
-Token *stub_no_literal(char *start, char *quote) { VASSERT(0, "literal reader reached although no quote is in the alphabet"); verif_exit(1); }
-Token *stub_no_literal3(char *start, char *quote, Type *ty) { VASSERT(0, "literal reader reached although no quote is in the alphabet"); verif_exit(1); }
+// unicode.c on ASCII input (alphabet bytes are 1..127, asserted here): decode_utf8 returns the byte;
+// is_ident1/2 are their C11 Annex D specification restricted to c < 128 (the full functions are
+// checked against Annex D for every code point by C11 ident/annexD and utf8/*).  cbmc only; the
+// native oracle validation and replays run the real unicode.c.
+uint32_t stub_decode_utf8(char **new_pos, char *p) {
+  VASSERT((unsigned char)*p < 128, "harness: only ASCII reaches decode_utf8");
+  *new_pos = p + 1;
+  return (unsigned char)*p;
+}
+bool stub_is_ident1(uint32_t c) {
+  VASSERT(c < 128, "harness: only ASCII reaches is_ident1");
+  return ('a' <= c && c <= 'z') || ('A' <= c && c <= 'Z') || c == '_' || c == '$';
+}
+bool stub_is_ident2(uint32_t c) {
+  VASSERT(c < 128, "harness: only ASCII reaches is_ident2");
+  return stub_is_ident1(c) || ('0' <= c && c <= '9');
+}
